@@ -282,7 +282,9 @@ class Lowerer:
                 inner = [x for x in c.get('inner', ()) if isinstance(x, dict) and x.get('kind')]
                 e = self.expr(inner[0]) if inner else None
                 if 'anyInit' in c:
-                    inits.append(('field', c['anyInit'].get('name'), c['anyInit'].get('id'), e))
+                    inits.append(('field', getattr(self.p, 'field_alias', {}).get(c['anyInit'].get('id'),
+                                                                                   c['anyInit'].get('name')),
+                                  c['anyInit'].get('id'), e))
                 elif 'baseInit' in c:
                     bt = c['baseInit'].get('desugaredQualType') or c['baseInit'].get('qualType')
                     inits.append(('base', bt.replace('verif_driver::T', self.numeric), None, e))
@@ -466,8 +468,9 @@ class Lowerer:
             return self.note_unknown(node)
         if k == 'MemberExpr':
             base = self.expr(inner[0]) if inner else N('this')
-            return self.mk('mem', node, [base], name=node.get('name'),
-                           id=node.get('referencedMemberDecl'), arrow=node.get('isArrow'))
+            mid_ = node.get('referencedMemberDecl')
+            return self.mk('mem', node, [base], name=getattr(self.p, 'field_alias', {}).get(mid_, node.get('name')),
+                           id=mid_, arrow=node.get('isArrow'))
         if k == 'CXXThisExpr':
             return self.mk('this', node, implicit=node.get('implicit'))
         if k == 'CallExpr' or k == 'CUDAKernelCallExpr':
